@@ -19,6 +19,7 @@ def main(c):
         raise vlib.ToolFailure("the protocol without the preparatory close was not found to hang: the model cannot see what it is for\n" + r.out[-2000:])
     c.cov["model_mutation_detected"] = "PREP = FALSE violates NoHang (a waiter holding its own write end never sees end-of-file)"
     c.cov["exhaustive"] = True
+    apalache(c)
     cmds = ["%s %s" % (p, o) for p in "AB" for o in OPS]
     progs = []
     for n in range(1, c.pick(4, 5)):
@@ -33,3 +34,20 @@ def main(c):
                      "read(2) is recognised in /proc/<pid>/syscall; every execution validated by TLC against IpcSyncTrace.tla (results of wait/signal incl. end-of-file, "
                      "EPIPE and calls on a closed end; a blocked waiter must be one that nothing can release yet; the model's invariants on the observed states)")
     c.cov["trusted_base"] = ["TLC", "Linux pipe semantics as modelled (bytes, open ends per process)", "/proc/<pid>/syscall for the blocked state"]
+
+
+def apalache(c):
+    """Unbounded in the number of bytes and signals: IndInv is inductive and implies NoHang (3 processes), with Apalache."""
+    import time
+    t0 = time.time()
+    ok = 0
+    outdir = os.path.join(c.dir, "apalache")
+    obligations = (["--init=Init", "--inv=IndInv", "--length=0"], ["--init=IndInv", "--inv=IndInv", "--length=1"], ["--init=IndInv", "--inv=NoHang", "--length=0"])
+    for args in obligations:
+        r = vlib.sh(["timeout", "600", "apalache-mc", "check", "--out-dir=" + outdir] + args + ["IpcSyncInd.tla"], cwd=SD, timeout=700)
+        if "The outcome is: NoError" in (r.stdout or ""):
+            ok += 1
+    c.cov["apalache_inductive_invariant"] = {"obligations": len(obligations), "discharged": ok, "wall_s": round(time.time() - t0, 1),
+                                             "statement": "Init => IndInv; IndInv /\\ Next => IndInv'; IndInv => NoHang (any number of bytes / signals, 3 processes)"}
+    if ok != len(obligations):
+        raise vlib.ToolFailure("Apalache did not discharge the inductive invariant of IpcSync (%d of %d)\n%s" % (ok, len(obligations), (r.stdout or "")[-1500:]))
